@@ -143,6 +143,9 @@ pub enum E {
     Z,
     /// a number k/8 (written as an integer literal when k is a multiple of 8)
     Num(i16),
+    /// a large integer literal (Rhai integers are 64 bit; the constant is its
+    /// nearest f32)
+    Big(i64),
     /// infix operator or named function; `method`: written a.f(b)
     Bin { op: BinOp, a: Box<E>, b: Box<E>, method: bool },
     Un { op: UnOp, a: Box<E>, method: bool },
@@ -193,10 +196,10 @@ fn v3(v: &[i16; 3]) -> Vec3 {
 
 impl E {
     fn is_tree(&self) -> bool {
-        !matches!(self, E::Num(_))
+        !matches!(self, E::Num(_) | E::Big(_))
     }
     fn is_plain_tree(&self) -> bool {
-        !matches!(self, E::Num(_) | E::Arr(_))
+        !matches!(self, E::Num(_) | E::Big(_) | E::Arr(_))
     }
 
     /// (script text, expected tree)
@@ -206,6 +209,10 @@ impl E {
             E::Y => ("y".into(), Tree::y()),
             E::Z => ("z".into(), Tree::z()),
             E::Num(k) => (lit(*k), Tree::constant(num(*k))),
+            E::Big(v) => (
+                if *v < 0 { format!("({v})") } else { format!("{v}") },
+                Tree::constant(*v as f32),
+            ),
             E::Arr(v) => {
                 let parts: Vec<(String, Tree)> = v.iter().map(|e| e.render()).collect();
                 (
@@ -694,7 +701,17 @@ fn expr(depth: u32) -> BoxedStrategy<E> {
     leaf.prop_recursive(depth, 40, 4, |inner| {
         let t = inner.clone().boxed();
         let b = |s: BoxedStrategy<E>| s.prop_map(Box::new);
-        let numb = k8().prop_map(E::Num).boxed();
+        let numb = prop_oneof![
+            12 => k8().prop_map(E::Num),
+            // integers around and beyond the 32-bit range
+            1 => prop_oneof![
+                Just(2147483647i64), Just(2147483648), Just(-2147483648), Just(-2147483649),
+                Just(4294967296), Just(1i64 << 40), Just(-(1i64 << 40)), Just(16777217),
+                (-5_000_000_000i64..=5_000_000_000),
+            ]
+            .prop_map(E::Big),
+        ]
+        .boxed();
         // operand: a tree, a number, or an array of trees
         let operand = prop_oneof![
             5 => t.clone(),
